@@ -794,7 +794,9 @@ class Tracer:
                 table = self._module_table(fi.module, e.value.id)
             for q, b in (self._expr(e.value, p, fi, depth) if table is None else [(p, table)]):
                 for r, i in self._expr(e.slice, q, fi, depth):
-                    if b.items is not None and not store:
+                    if b.items and not store and (table is not None or any(_holds_function(v_) for _, v_ in b.items)):
+                        # a lookup table: a module-level display nobody mutates, or a local display of handlers
+                        # (a plain local dict may have been filled by item stores since it was written down: not read through)
                         outs.extend(self._select(b, i, r, e, fi, depth))
                         continue
                     if b.elems is not None and i.const is not NOCONST and isinstance(i.const, int) and -len(b.elems) <= i.const < len(b.elems):
